@@ -16,4 +16,13 @@ def run(tier, seed, ctx):
             out.append((payload, has_input))
         elif not has_input:
             out.append((payload, has_input))
-    return out, {('c01_' + k if not k.startswith('c05') else k.replace('c05', 'c01_c05')): v for k, v in cov.items()}
+    cov = {('c01_' + k if not k.startswith('c05') else k.replace('c05', 'c01_c05')): v for k, v in cov.items()}
+    # the unchecked operations of sparse_map.rs (get_unchecked, assume_unchecked) are UB sites of coq/SparseMap.v:
+    # unit correspondence of the two (only when the model side is available: it needs the extracted driver)
+    if os.path.exists(os.path.join(ctx['VERIF'], 'ocaml', 'driver')) and not out:
+        import sys
+        sys.path.insert(0, os.path.join(ctx['VERIF'], 'gen'))
+        import units_sparsemap
+        v2, c2 = units_sparsemap.run(tier, seed, ctx, 'C01')
+        out += v2; cov.update(c2)
+    return out, cov
